@@ -130,6 +130,12 @@ func (s *Server) ListStores(ctx context.Context, req *openfgav1.ListStoresReques
 		return nil, err
 	}
 
+	// A non-nil but empty list means access control is enforced and the caller can read no store.
+	// The storage layer treats an empty ID list as "no filter", so it must not be reached.
+	if storeIDs != nil && len(storeIDs) == 0 {
+		return &openfgav1.ListStoresResponse{Stores: []*openfgav1.Store{}}, nil
+	}
+
 	// even though we have the list of store IDs, we need to call ListStoresQuery to fetch the entire metadata of the store.
 	q := commands.NewListStoresQuery(s.datastore,
 		commands.WithListStoresQueryLogger(s.logger),
